@@ -69,7 +69,8 @@ def make_case(g, rng):
                       "missing_source_file", "missing_yaml", "usage_error", "missing_required_key", "missing_required_key",
                       "dry_validate", "dry_dry_run", "dry_run_space", "execute_ok", "execute_ok", "execute_fail", "execute_fail",
                       "invalid_plus_validate", "missing_key_plus_dry_run", "missing_self_written_key",
-                      "missing_key_of_second_same_named_processor", "dry_run_space_without_blocks", "dry_run_space_without_blocks"])
+                      "missing_key_of_second_same_named_processor", "dry_run_space_without_blocks", "dry_run_space_without_blocks",
+                      "invalid_sweep_expression", "invalid_sweep_expression", "malformed_run_space"])
     nodes = base_pipeline(g)
     if cls == "missing_key_of_second_same_named_processor":
         # two generated processors that get the SAME class name (both write `label`) but need different keys; the key only
@@ -92,7 +93,16 @@ def make_case(g, rng):
     expect = {"rc": 0, "executes": True}
     files: dict = {}
     yaml_name = "case.yaml"
-    if cls == "invalid_unknown_processor":
+    if cls == "invalid_sweep_expression":
+        # a sweep expression that is valid Python but outside the safe grammar / over an undeclared variable: a configuration
+        # error that pre-flight must report (nothing executes; --validate and --dry-run must not say "valid" either)
+        bad = rng.choice(["2.0 * tt", "t.real + 1.0", "len(str(t)) * 1.0", "[t, 2.0][0]", "(lambda: t)()"])
+        nodes.insert(3, {"processor": "VMulDefault", "derive": {"parameter_sweep": {"parameters": {"factor": bad}, "variables": {"t": [1.0, 2.0]},
+                                                                                     "collection": "FloatDataCollection"}}})
+        nodes.insert(4, {"processor": "VCollSum"})
+        argv_extra += rng.choice([[], [], ["--validate"], ["--dry-run"]])
+        expect = {"rc": 3, "executes": False}
+    elif cls == "invalid_unknown_processor":
         nodes[2] = {"processor": "NoSuchProcessorAnywhere"}
         expect = {"rc": 3, "executes": False}
     elif cls == "invalid_unknown_param":
